@@ -233,6 +233,7 @@ class Ref:
     def __init__(self, prog):
         self.prog = prog
         self.fns = prog["fns"]
+        self.preds = None  # set to a list to record (path, idx, bool) of every Cond predicate evaluated
 
     def run(self, fname, args, kwargs, site, path=(), idx=()):
         fn = self.fns[fname]
@@ -266,7 +267,10 @@ class Ref:
             elif kind == "cond":
                 _, _, pred, ft, ff, aex = st
                 a = [ev(e, env, np) for e in aex]
-                env["v"][addr] = self.run(ft if bool(ev(pred, env, np)) else ff, a, {}, site, path + (addr,), idx)
+                pv = bool(ev(pred, env, np))
+                if self.preds is not None:
+                    self.preds.append((path + (addr,), idx, pv))
+                env["v"][addr] = self.run(ft if pv else ff, a, {}, site, path + (addr,), idx)
             else:
                 raise ValueError(st)
         return ev(fn["ret"], env, np)
